@@ -81,7 +81,7 @@ def run_item(item):
     ceil = {k: float(sv["beitr_bemess_grenze_m"][k][region]) for k in ("ges_rentenv", "ges_krankenv")}
     # statutory boundaries of this run are taken from the run itself (nodes), the grid from the ceilings
     top = 1.25 * max(ceil.values())
-    n_grid = 700 if item["tier"] == "quick" else 6000
+    n_grid = 1500 if item["tier"] == "quick" else 3000
     wages = list(np.round(np.linspace(0, top, n_grid), 2))
     probe = popgen.replicate_with_wages(base, [1000.0])
     pr = env.simulate(probe, params, functions, ["minijob_grenze", "in_gleitzone"])
